@@ -12,6 +12,7 @@ pairwise distinct, unused generator states - D no two samples of a run share the
 """
 import numpy as np
 
+from simkit import rngseam
 from simkit.world import sub_rng, Context, HarnessError
 from . import builders as B
 
@@ -40,7 +41,7 @@ ASSUMPTIONS = [
 TIERS = {
     "quick": {"worlds": 1000, "wall": 520, "shrink_budget": 60,
               "required_probes": ["c08.run_completed", "c08.repeat_compared", "pool.worker_ran_2plus_tasks",
-                                  "c08.predraw_batch", "c08.multilevel_run"]},
+                                  "c08.predraw_batch", "c08.multilevel_run", "c08.default_convergence_rates"]},
     "thorough": {"worlds": 16000, "wall": 3300, "shrink_budget": 150,
                  "required_probes": ["c08.run_completed", "c08.repeat_compared", "pool.worker_ran_2plus_tasks",
                                      "c08.predraw_batch", "c08.multilevel_run",
@@ -145,6 +146,8 @@ def generate(seed, tier="quick"):
     if sc.get("nproc") != 1 and r.random() < 0.1:
         sc["env"]["task_fail_one_in"] = r.choice([2, 6])
         sc["faults"].append("pool.task_failed")
+    # convergence rates: computed from the model, or left to the configuration's default (then regressed by the run)
+    sc["rates"] = "default" if (engine == "mlmc_adaptive" and r.random() < 0.4) else "model"
     return sc
 
 
@@ -286,10 +289,14 @@ def _build(sc):
     from rpylib.montecarlo.configuration import ConfigurationMultiLevel, compute_convergence_rates
     from rpylib.montecarlo.multilevel.engine import Engine
 
-    cr = compute_convergence_rates(process.model.blumenthal_getoor_index())
-    cfg = ConfigurationMultiLevel(convergence_rates=cr, initial_level=sc["initial_level"],
+    kw = {}
+    if sc.get("rates", "model") == "model":
+        kw["convergence_rates"] = compute_convergence_rates(process.model.blumenthal_getoor_index())
+    else:
+        rngseam.ACTIVE.probes["c08.default_convergence_rates"] += 1  # nothing passed: the library's default object
+    cfg = ConfigurationMultiLevel(initial_level=sc["initial_level"],
                                   maximum_level=sc["max_level"], initial_mc_paths=sc["n"], seed=sc["seed"],
-                                  nb_of_processes=sc["nproc"])
+                                  nb_of_processes=sc["nproc"], **kw)
     eng = Engine(cfg, process)
     if sc["engine"] == "mlmc_fixed":
         return eng, product, (lambda: eng.price_with_constant_mc_paths_and_level(product))
